@@ -1,4 +1,6 @@
-(* Thread/Inv.v — proofs about the hand-off protocol model Thread/Proto.v. *)
+(* Thread/Inv.v — the inductive invariant of the hand-off protocol model
+   Thread/Proto.v and its preservation by every action, for every
+   configuration [cf] (current code, old order, repaired). *)
 From Coq Require Import List Bool Arith Lia.
 From GV Require Import Thread.Proto.
 Import ListNotations.
@@ -18,4 +20,91 @@ Proof.
   - rewrite run_app in Htr. destruct (run cf init tr) as [s1|] eqn:E; [|discriminate].
     simpl in Htr. destruct (step cf s1 x) as [s2|] eqn:E2; [|discriminate]. inversion Htr; subst.
     eapply Hs; [exists tr; exact E | apply IHtr; reflexivity | exact E2].
+Qed.
+
+(* ---- abbreviations *)
+Definition stt (s : state) (h : nat) : st := status (th s h).
+Definition cal (s : state) (h : nat) : option nat := caller (th s h).
+Definition clo (s : state) (h : nat) : bool := closed (th s h).
+
+(* the mutexes a goroutine g at pc p holds *)
+Definition holds (p : pcT) (g u : nat) : bool :=
+  match p with
+  | R2 _ t _ | R3 _ t _ => u =? t
+  | R4 _ t _ | R5 _ t _ => (u =? t) || (u =? g)
+  | R6 _ _ _ => u =? g
+  | Y2 _ | Y3 _ _ => u =? g
+  | Y4 c _ | Y5 c _ => (u =? g) || (u =? c)
+  | Y6 c _ => u =? c
+  | E2 _ _ => u =? g
+  | E3 c _ | E4 c _ | E5 c _ | E6 c _ | E6r c _ | E7 c _ | E8 c | E9 c => (u =? g) || (u =? c)
+  | E10 => u =? g
+  | X1 _ c _ | XY1 c _ => (u =? g) || (u =? c)
+  | X2 t c _ | X3 t c _ => (u =? g) || (u =? c) || (u =? t)
+  | _ => false
+  end.
+
+(* c is blocked in Resume/Close waiting for the thread g it handed control to *)
+Definition waitfor (s : state) (c g : nat) : Prop := pc s c = R8 g /\ stt s c = OK /\ c <> g.
+(* t is blocked in its receive and is not g *)
+Definition tgt (s : state) (g t : nat) : Prop := (pc s t = S0 \/ pc s t = Y8) /\ t <> g.
+(* c has flipped h to OK and is about to send to it *)
+Definition transit (s : state) (c h : nat) : Prop :=
+  match pc s c with R5 _ t _ | R6 _ t _ | R7 _ t _ => t = h | _ => False end.
+
+Definition linked (s : state) (h : nat) : Prop :=
+  match cal s h with
+  | Some c => c <> h /\ (waitfor s c h \/ transit s c h)
+  | None => False
+  end.
+
+Definition ok_pc (s : state) (g : nat) (p : pcT) : Prop :=
+  match p with
+  | NotCreated => n s <= g
+  | Panicked => False
+  | MainDone => g = 0
+  | Lua | Y1 _ | Y2 _ => stt s g = OK /\ clo s g = false
+  | R1 _ t _ | R2 _ t _ => stt s g = OK /\ clo s g = false /\ t < n s
+  | R3 _ t _ | R4 _ t _ => stt s g = OK /\ clo s g = false /\ stt s t = Suspended /\ tgt s g t
+  | R5 _ t _ | R6 _ t _ | R7 _ t _ =>
+      stt s g = OK /\ clo s g = false /\ stt s t = OK /\ cal s t = Some g /\ tgt s g t
+  | R8 _ => stt s g = OK /\ clo s g = false
+  | S0 | Y8 => g <> 0 /\ clo s g = false /\
+      ((stt s g = Suspended /\ cal s g = None) \/
+       (stt s g = OK /\ match cal s g with Some r => transit s r g | None => False end))
+  | Y3 c _ | Y4 c _ => stt s g = OK /\ clo s g = false /\ cal s g = Some c /\ waitfor s c g
+  | Y5 c _ | Y6 c _ | Y7 c _ =>
+      stt s g = Suspended /\ clo s g = false /\ cal s g = None /\ waitfor s c g /\ g <> 0
+  | E0 _ => stt s g = OK /\ clo s g = false /\ g <> 0
+  | E1 c _ | E2 c _ | E3 c _ => stt s g = OK /\ clo s g = false /\ cal s g = Some c /\ waitfor s c g
+  | E4 c _ => stt s g = OK /\ clo s g = true /\ cal s g = Some c /\ waitfor s c g
+  | E5 c _ | E6 c _ | E6r c _ | E7 c _ | X1 _ c _ | X2 _ c _ | X3 _ c _ | XY1 c _ =>
+      stt s g = Dead /\ clo s g = true /\ cal s g = None /\ waitfor s c g
+  | E8 _ | E9 _ | E10 | Done => stt s g = Dead /\ clo s g = true /\ cal s g = None
+  end.
+
+Record Inv (s : state) : Prop := mkInv {
+  iN : forall h, n s <= h -> pc s h = NotCreated /\ mux (th s h) = None;
+  iM : stt s 0 = OK /\ cal s 0 = None /\ 0 < n s;
+  iA : forall g h, active (pc s g) = true -> active (pc s h) = true -> g = h;
+  iB : exists g, active (pc s g) = true;
+  iG : forall u h, mux (th s u) = Some h <-> holds (pc s h) h u = true;
+  iD : forall h, h <> 0 -> h < n s -> stt s h = OK -> linked s h;
+  iP : forall h, ok_pc s h (pc s h) }.
+
+Lemma upd_eq : forall A (f : nat -> A) i v, upd f i v i = v.
+Proof. intros. unfold upd. now rewrite Nat.eqb_refl. Qed.
+Lemma upd_neq : forall A (f : nat -> A) i j v, j <> i -> upd f i v j = f j.
+Proof. intros. unfold upd. destruct (Nat.eqb_spec j i); congruence. Qed.
+
+Lemma inv_init : Inv init.
+Proof.
+  constructor; unfold init, stt, cal, clo; simpl.
+  - intros h Hh. rewrite upd_neq by lia. auto.
+  - auto.
+  - intros g h. unfold upd. destruct (Nat.eqb_spec g 0), (Nat.eqb_spec h 0); simpl; congruence.
+  - exists 0. reflexivity.
+  - intros u h. unfold upd. destruct (Nat.eqb_spec h 0); simpl; split; discriminate.
+  - intros h H1 H2. lia.
+  - intros h. unfold upd. destruct (Nat.eqb_spec h 0); simpl; unfold stt, clo; simpl; auto. lia.
 Qed.
